@@ -126,7 +126,7 @@ def impl(case):
     U = [ks[0]] + ks + [ks[-1]]
     if case.get("pre"):
         curve = Curve(U, [float(nums(pt)[0]) if scalar else np.array([float(v) for v in nums(pt)]) for pt in case["pre"]])
-        capture(lambda: Projection.point_on_curve(float(nums(case["x"])[0]) if scalar else [float(v) for v in nums(case["x"])], curve), seconds=20)
+        capture(lambda: Projection.point_on_curve(float(nums(case["x"])[0]) if scalar else [float(v) for v in nums(case["x"])], curve), seconds=60)
         curve.ctrlpoints = P
     else:
         curve = Curve(U, P)
@@ -137,7 +137,7 @@ def impl(case):
     tup = (lambda pts: tuple(pts)) if scalar else (lambda pts: tuple(map(tuple, pts)))
     before = (tuple(curve.knotvector), tup(curve.ctrlpoints))
     x = float(nums(case["x"])[0]) if scalar else [float(v) for v in nums(case["x"])]
-    r = capture(lambda: [out_num(t) for t in Projection.point_on_curve(x, curve)], seconds=case.get("timeout", 20))
+    r = capture(lambda: [out_num(t) for t in Projection.point_on_curve(x, curve)], seconds=case.get("timeout", 60))
     same = before == (tuple(curve.knotvector), tup(curve.ctrlpoints))
     return {"r": r, "same": same}
 
